@@ -1,6 +1,7 @@
 """C03 — HyperLogLog: count() returns normally for any register contents; the tables the estimator reads agree in shape."""
 import math
 from ..terms import TermBuilder, fmt, mk, const, subterms
+from ..terms import callee_is as _nm
 from ..guards import atomic_facts, int_bounds, panic_sites, entails_ge0, discharged_by_facts
 
 EXPLANATION = (
@@ -270,7 +271,7 @@ def cursor_assert_discharge(f, prog, tb, bi):
         if not (pp is not None and pp[0] == "loopvar" and isinstance(pp[1], int) and f.local_ty(pp[1]).startswith("std::option::Option<usize")):
             return None
         init = tb.loop_init(pp[1], pp[2])
-        seeds = [s_ for s_ in subterms(init) if s_[0] == "call" and s_[1].endswith("neighbor_search_startpoints")]
+        seeds = [s_ for s_ in subterms(init) if s_[0] == "call" and _nm(s_[1], "neighbor_search_startpoints")]
         return seeds[0][2][0] if seeds else None
 
     phis = [s_ for s_ in subterms(c) if s_[0] == "phi"]
@@ -314,7 +315,7 @@ def neighbour_bounds(ctx):
             if not (tb.defined_in_loop(l, h) and f.local_ty(l).startswith("std::option::Option<usize")):
                 continue
             init = tb.loop_init(l, h)
-            seeds = [s_ for s_ in subterms(init) if s_[0] == "call" and s_[1].endswith("neighbor_search_startpoints")]
+            seeds = [s_ for s_ in subterms(init) if s_[0] == "call" and _nm(s_[1], "neighbor_search_startpoints")]
             if not seeds:
                 continue
             row = seeds[0][2][0]
@@ -329,7 +330,7 @@ def neighbour_bounds(ctx):
                     ctx.ok("R03-neighbour-bounds", key, "cursor kept / exhausted")
                     continue
                 inner, own_test = alt, None
-                if alt[0] == "call" and alt[1].endswith("Option::filter") and len(alt[2]) == 2 and alt[2][1][0] == "closure":
+                if alt[0] == "call" and _nm(alt[1], "Option::filter") and len(alt[2]) == 2 and alt[2][1][0] == "closure":
                     inner = alt[2][0]
                     own_test = apply_closure(alt[2][1], (("elem", ("dummy",)),))
                 if alt[0] == "call" and alt[1] == "bool::then_some" and len(alt[2]) == 2:
